@@ -151,3 +151,8 @@ def compare(c, impl, model):
         if s2 is None or s2 != model[2][0]:
             return "strict configuration differs from the model"
     return None
+
+
+def extra_checks(ctx, cases, impl_lines, model_lines):
+    from gen import xcheck
+    return xcheck.concurrent_reconfig(ctx, "a built configuration installed and logged through while another thread logs", levels=False, plain=True)
